@@ -71,6 +71,14 @@ def _check_valid_kmer(x: bytes, gk, revcomp, variants=True):
 				raise Violation('revcomp_case', f'revcomp({v!r}) = {rv!r}, expected {R.ref_revcomp(v)!r}', {'kind': 'one_kmer', 'kmer': v.decode()})
 		if gk.kmer_to_index(x.decode('ascii')) != exp or gk.kmer_to_index(bytearray(x)) != exp:
 			raise Violation('encode_types', f'str/bytearray input of {x!r} encodes differently', {'kind': 'one_kmer', 'kmer': x.decode()})
+		from Bio.Seq import Seq
+		import numpy as _np
+		if gk.kmer_to_index(Seq(x)) != exp or gk.kmer_to_index_rc(Seq(x.decode())) != got_irc or gk.kmer_to_index_rc(x.decode('ascii').lower()) != got_irc:
+			raise Violation('encode_types', f'Bio.Seq / str input of {x!r} encodes differently', {'kind': 'one_kmer', 'kmer': x.decode()})
+		if k <= 31 and gk.index_to_kmer(_np.int64(exp), _np.int32(k)) != x:
+			raise Violation('decode_types', f'index_to_kmer with NumPy integer arguments differs for {x!r}', {'kind': 'one_kmer', 'kmer': x.decode()})
+		if gk.index_to_kmer(_np.uint64(exp), k) != x:
+			raise Violation('decode_types', f'index_to_kmer with a NumPy uint64 index differs for {x!r}', {'kind': 'one_kmer', 'kmer': x.decode()})
 
 
 def _expect_reject(s: bytes, gk, why):
